@@ -24,6 +24,15 @@ CHECKS["C03"]=dict(text="Every operator chain of 3 (6 operand kinds), 4 and 5 (n
 CHECKS["C06"]=dict(text="All schedules within preemption bound 2 (quick) / 3 (thorough) of every 3-thread scenario built from 10 thread programs (compile / run a shared machine / run with a failing tree) are executed on the real code under a cooperative scheduler whose visible operations are the mutex operations and every access to a mutable package-level variable (found by the instrumenter); shared-machine scenarios are additionally explored at tick (instruction) granularity. Per execution: every thread's observations equal its isolated run, no vector-clock race, no deadlock, no panic. All operation histories up to length 4/5 are executed without resets and every machine must keep its isolated result and listing.",
   note="Trusted: the instrumenter's notion of mutable package variable, sequentially consistent hand-offs. Heap-level races are only seen through results at tick granularity or by the free-running -race pass of the thorough tier (supporting evidence).",
   technique="stateless preemption-bounded schedule exploration (controlled scheduler, vector clocks) + exhaustive operation-history enumeration", ref="DESIGN.md §4 C06", engine="E3")
+CHECKS["C08"]=dict(text="Every combination of content piece, quoting form (unquoted, single, double, '+' concatenations of up to 3 pieces with comments and line breaks between them) and layout (6 statement indents, 3 keywords, 11 continuation indents around the quote column incl. tabs, 4 trailing-blank patterns, LF/CRLF, blank and empty last lines, the same text occurring earlier in the file) is parsed by the real parser and the reported argument compared with a decoder written from RFC 6020 6.1.3 applied to the generator's own structure.",
+  note="Trusted: the reference decoder (ref/yangstr). Cases RFC 6020 leaves open (tab straddling the quote column, escapes adjacent to stripped white space, other backslash sequences) are not generated.",
+  technique="bounded exhaustive enumeration of (content x quoting x layout) against a reference decoder", ref="DESIGN.md §4 C08")
+CHECKS["C09"]=dict(text="All (parent, child, count 0/1/2) triples over every RFC 6020 keyword plus a prefixed extension and an unknown word, all permutations and subsets of module/submodule sections, all pairs/triples of revision dates, and per argument kind an alphabet of valid, boundary and near-miss strings are parsed by the real parser; the verdict must equal the RFC 6020 section 7 substatement tables and section 12 ABNF recognisers transcribed in ref/rfc6020, and every rejection must carry name:line:col and name the offending statement.",
+  note="Trusted: the transcribed tables and recognisers. refine/deviate parents, uses->refine/augment x2, list->key x0, semantic date/range validity, nested keys and edge white space are UNSPECIFIED.",
+  technique="exhaustive enumeration of table cells, section orders and argument alphabets against transcribed RFC tables", ref="DESIGN.md §4 C09")
+CHECKS["C10"]=dict(text="Statement trees from a 10-item menu (<=2-3 body statements, containers nested to depth 3) are rendered from token lists with the generator recording keyword, decoded argument, nesting and keyword line/column; every token boundary x 8 trivia variants (nothing, blank, tab, LF, CRLF, block comment, line comment, blank lines), leading/trailing trivia and every re-quoting of every argument (unquoted, single, double, '+' split at every position) is parsed and the walk of the returned tree must equal the expectation exactly, positions included.",
+  note="Trusted: the generator's position bookkeeping. The shorthand-case expansion the parser performs (RFC 6020 7.9.2) is part of the expected tree.",
+  technique="bounded exhaustive enumeration of trivia placements and quotings, exact tree comparison", ref="DESIGN.md §4 C10")
 NOT_YET = {}
 props=[json.loads(l) for l in open('/verif/properties.jsonl')]
 checks=[]; na=[]
